@@ -1294,6 +1294,9 @@ extern "C" {
             break;
           }
           case dr_dag_node_kind_other: 
+            if (x->next) {
+              s->info.logical_edge_counts[dr_dag_edge_kind_other_cont]++;
+            }
             break;
           case dr_dag_node_kind_section:
             if (x->next) {
